@@ -59,6 +59,20 @@ func genQuote(n int) {
 			}
 		}
 	}
+	// a quoted or escaped value under every short sequence of operators, next to negated, required and juxtaposed clauses: it is the
+	// same plain string leaf wherever it stands (tree-only relation C08t)
+	ctxs := []string{"%s", "NOT %s", "-%s", "+%s", "(%s)", "-(+%s)", "NOT (+%s)", "+(-%s)", "NOT (NOT %s)", "-(-%s)", "-(%s AND g:1)", "%s AND g:1", "g:1 OR %s", "g:1 %s", "-g:1 %s", "+g:1 %s",
+		"NOT g:1 %s", "g:1 OR -g:2 %s", "(%s OR g:1) AND NOT h:2", "-(+(%s))", "NOT (-(+%s))", "%s^2", "-(+%s) OR g:1", "g:1 AND -(+%s)", "+g:1 AND -g:2 %s", "NOT (g:1 %s)"}
+	for _, c := range ctxs {
+		for _, w := range []string{"x y", "it's", "5", "a:b", "(p)", "w*", "AND", "x  y", "é ü"} {
+			emitQ(fmt.Sprintf(c, `f:"`+w+`"`), "", "rel=C08t;w="+hx(w))
+			emitQ(fmt.Sprintf(c, `"`+w+`"`), pick([]string{"", "d"}), "rel=C08t;w="+hx(w))
+		}
+		for _, ew := range [][2]string{{`x\ y`, "x y"}, {`a\:b`, "a:b"}, {`p\(q\)`, "p(q)"}, {`it\'s`, "it's"}, {`a\,b`, "a,b"}, {`x\ \ y`, "x  y"}} {
+			emitQ(fmt.Sprintf(c, "f:"+ew[0]), "", "rel=C08t;w="+hx(ew[1]))
+			emitQ(fmt.Sprintf(c, ew[0]), pick([]string{"", "d"}), "rel=C08t;w="+hx(ew[1]))
+		}
+	}
 	for i := 0; i < n; i++ {
 		w := randText(5, quoteAlphabet)
 		if !utf8.ValidString(w) {
@@ -172,7 +186,7 @@ func genLex(n int) {
 			case 1:
 				words = append(words, pick(intWords))
 			case 2:
-				words = append(words, pick([]string{"Hello", "title", "WORLD", "naïve", "body", "Straße", "AND", "or", "Not", "x_y_z", "abcd", "ABCD", "aBcD"}))
+				words = append(words, pick([]string{"Hello", "title", "WORLD", "naïve", "body", "Straße", "AND", "or", "Not", "x_y_z", "abcd", "ABCD", "aBcD", "now/d", "a/b", "1/2", "[", "]", "TO", "{"}))
 			default:
 				words = append(words, pick(plainWords))
 			}
@@ -188,6 +202,19 @@ func genLex(n int) {
 			b.WriteString(w)
 		}
 		in := b.String()
+		// blanks the lexer does not know (form feed, vertical tab, no-break space, line separator, byte order mark) before, after
+		// or inside an otherwise ordinary text: a lexical error wherever they stand
+		if rng.Intn(4) == 0 {
+			odd := pick([]string{"\f", "\v", "\u00a0", "\u2028", "\ufeff", "\u3000", "\x85"})
+			switch rng.Intn(3) {
+			case 0:
+				in = odd + in
+			case 1:
+				in = in + odd
+			default:
+				in = strings.Replace(in, " ", odd, 1)
+			}
+		}
 		emitL(in, strings.Repeat("N", len(in)+3))
 		if rng.Intn(2) == 0 {
 			emitL(in, script(in))
@@ -345,6 +372,25 @@ func genJSON(n int) {
 		`{"operator":"NOT"}`, `{"left":null,"operator":"NOT"}`, `{"left":"a","operator":"RANGE","right":"x"}`, "\xff", "{", `{"left":}`}
 	for _, d := range fixed {
 		emitJ(d, "src=fixed")
+	}
+	// every JSON value shape in every operand position of every operator, one and two levels deep: which documents validate is for
+	// the library to say; the ones that do must print, render and re-encode without a panic
+	names := []string{"AND", "OR", "EQUALS", "LIKE", "NOT", "RANGE", "MUST", "MUST_NOT", "BOOST", "FUZZY", "LITERAL", "WILD", "REGEXP", "GREATER", "LESS", "GREATER_EQ", "LESS_EQ", "IN", "LIST"}
+	shapes := []string{`"a"`, `"w*"`, `"/r/"`, `""`, `"*"`, `5`, `2.5`, `null`, `true`, `[1,2]`, `[]`, `["x","y*"]`, `{}`, `{"min":1,"max":5,"inclusive":true}`}
+	for _, o := range names {
+		for _, l := range shapes {
+			for _, r := range shapes {
+				emitJ(`{"left":`+l+`,"operator":"`+o+`","right":`+r+`}`, "src=shapes")
+			}
+			emitJ(`{"left":`+l+`,"operator":"`+o+`"}`, "src=shapes")
+		}
+		for _, i := range names {
+			for _, l := range shapes {
+				inner := `{"left":` + l + `,"operator":"` + i + `","right":"b"}`
+				emitJ(`{"left":`+inner+`,"operator":"`+o+`","right":"c"}`, "src=shapes")
+				emitJ(`{"left":"c","operator":"`+o+`","right":`+inner+`}`, "src=shapes")
+			}
+		}
 	}
 	// documents the encoder produced for generated queries, then mutated
 	for i := 0; i < n/3; i++ {
@@ -752,10 +798,16 @@ var nearForms = [][]string{
 
 func genNearMiss() {
 	k := 0
+	g := 900000 // group numbers of the layout pairs, apart from those of the layout generator
 	emit := func(w []string) {
 		q := strings.Join(w, " ")
 		emitQ(q, "", "src=nearmiss")
 		emitQ(q, "d", "src=nearmiss")
+		// what is no query stays none under every layout: spaced against tight, and with the group under a field doubled
+		nearMissLayout(w, &g)
+		emitQ("f : ( "+q+" )", "", fmt.Sprintf("rel=C09par;g=%d;role=a", g))
+		emitQ("f : ( ( "+q+" ) )", "", fmt.Sprintf("rel=C09par;g=%d;role=b", g))
+		g++
 		// the same text as an operand: what is not a query on its own is not one inside a group, under a field or an operator either
 		k++
 		switch k % 8 {
